@@ -3,6 +3,7 @@
 package gldap
 
 import (
+	"errors"
 	"crypto/tls"
 	"crypto/x509"
 	"fmt"
@@ -233,7 +234,18 @@ func H_C07_faults() {
 		}
 		mu.Unlock()
 	}
-	boom := func(w *ResponseWriter, r *Request) { panic("handler panic") }
+	// what the handler panics with: a string, an error, or some other value
+	panicWith := vLen("panicValue", 2)
+	boom := func(w *ResponseWriter, r *Request) {
+		switch panicWith {
+		case 0:
+			panic("handler panic")
+		case 1:
+			panic(errors.New("handler panic"))
+		default:
+			panic(42)
+		}
+	}
 	// connection 1 is the victim, connection 2 the bystander; Delete is served normally, Add panics
 	vAssume(v.mux.Delete(ok) == nil && v.mux.Add(boom) == nil)
 	vAssume(v.mux.ExtendedOperation(boom, ExtendedOperationStartTLS) == nil)
